@@ -85,6 +85,9 @@ CLAIMED['C38'] = ("the real Server.onConn, given a connection whose handshake re
 CLAIMED['C24'] = ("the real ResourcePool (capacity 1, maximum 2..3, dynamic scale-out) under concurrent clients: no more connections handed out than the maximum, capacity never above the maximum, no connection with two holders, Put never fails, and idle + in-use = capacity with every slot back once at rest. Two explorations by the engine's scheduler (interleavings and action orders are decisions of the path, explored exhaustively within the bound): every interleaving at the pool's channel / mutex / atomic operations with at most one preemption of three Get-hold-Put clients; and every order of 5 actions {start a client, let a gated factory call succeed or fail, return the held connection, scale-in step, SetCapacity} with factory calls blocked at gates",
     "no SMT query is involved: the inputs of this property are schedules, which the engine enumerates as path decisions; the fine-grained interleaving harness is engine-only (Go cannot force a schedule natively), the gated harness replays natively (other goroutines are given 20 ms to reach their blocking point); the idle-close sweep, Close, timers (their ticks are explicit actions), more than 3 clients and more than one preemption (quick) are outside the bound")
 
+CLAIMED['C05'] = ("UPDATE / DELETE statements parsed by the real parser, given a WHERE tree from the C01 grammar with symbolic literals and planned by the real BuildPlan on a range rule: every generated statement targets a sub table, no sub table gets the statement twice, the table holding any row (symbolic key) that satisfies the condition gets the statement, and the real MergeExecResult reports the sum of the (symbolic) per-shard affected-row counts; 21 UPDATE / INSERT ... ON DUPLICATE KEY UPDATE texts assigning (or not) the sharding column in qualified, aliased, quoted and upper-case spellings are rejected (accepted)",
+    "the per-table execution against stored rows is not modelled (the proxy sends the unchanged condition to each routed table, so 'exactly the matching rows' reduces to routing + once-per-table + sum); hash/mod/date rules are covered for routing by C01 only; LIMIT is excluded by the property; the assignment texts are a fixed list, not symbolic")
+
 NA_REASON = "check not built yet (work in progress; see DESIGN.md section 3 for the planned harness)"
 NA = {}
 
